@@ -121,6 +121,9 @@ def run_check(pid, tier, seed, replay=None):
            'broken': [b[0] for b in broken], 'model_ok': okd and not any(b[0] == 'build' for b in broken),
            'impl_ok': not any(b[0] == 'build' for b in broken), 'replay': replay}
     known_hits = {}
+    docmodel = getattr(mod, 'DOC_MODEL', False) and not replay
+    if docmodel:
+        lib.DOC_LOG = []
     try:
         if ctx['impl_ok']:
             for v in mod.run(ctx):
@@ -130,9 +133,30 @@ def run_check(pid, tier, seed, replay=None):
                     known_hits[k] = known_hits.get(k, 0) + 1
                 else:
                     violations.append(v)
+        if docmodel and ctx['impl_ok'] and ctx['model_ok']:
+            # the documents this check generated, through the composed whole-document model (Model/Svgdx.v) as well
+            import doccorr
+            log, lib.DOC_LOG = lib.DOC_LOG, None
+            seen = set(); items = []
+            for cf, d in log:
+                if (cf, d) in seen:
+                    continue
+                seen.add((cf, d))
+                try:
+                    items.append((bytes.fromhex(d).decode('utf-8'), doccorr.dec_cfg(cf)))
+                except UnicodeDecodeError:
+                    pass
+            cap = 1500 if tier == 'quick' else 40000
+            if len(items) > cap:
+                step = len(items) / float(cap)
+                items = [items[int(i * step)] for i in range(cap)]
+            for v in doccorr.compare(lib, items, stats):
+                violations.append(v)
     except Exception:
         traceback.print_exc()
         broken.append(('machinery', 'check machinery raised an exception: ' + traceback.format_exc()[-400:]))
+    finally:
+        lib.DOC_LOG = None
     # ---- known findings: replay each witness
     for kf in known:
         still = mod.replay_known(kf, ctx) if hasattr(mod, 'replay_known') else True
